@@ -167,4 +167,37 @@ Section Classes.
     map (fun '(xi, gi) => map (fun '(xj, gj) => ref xi gi xj gj) l) l.
   Definition sym_rows (M : list (list R)) : Prop :=
     forall i j, nth j (nth i M []) 0 = nth i (nth j M []) 0.
+
+  (** ** Conjunction classes of operators *)
+  (** LipschitzStronglyMonotoneOperator(mu, L) *)
+  Definition lipschitz_strongly_monotone_op (mu L : R) (A : graph) : Prop :=
+    strongly_monotone_op mu A /\ lipschitz_op L A.
+  (** CocoerciveStronglyMonotoneOperator(mu, beta) *)
+  Definition cocoercive_strongly_monotone_op (mu beta : R) (A : graph) : Prop :=
+    strongly_monotone_op mu A /\ cocoercive_op beta A.
+  (** NonexpansiveOperator with a declared infimal displacement vector v *)
+  Definition nonexpansive_with_displacement (A : graph) (v : E) : Prop :=
+    nonexpansive_op A /\ inf_displacement A v.
+
+  (** ** BlockSmoothConvexFunction(partition, [L_0 .. L_{K-1}])
+      The partition of the space into K blocks is a family of "block projections" P_0 .. P_{K-1}:
+      linear, self-adjoint, idempotent, mutually orthogonal, summing to the identity (on R^d: the
+      coordinate-block projections).  A member is convex and satisfies, for every block k, the
+      quadratic upper bound along displacements inside block k with constant L_k:
+        F (x + P_k d) <= F x + <grad F x, P_k d> + L_k / 2 |P_k d|^2. *)
+  Fixpoint block_sum (P : nat -> E -> E) (K : nat) (a : E) : E :=
+    match K with O => vzero | S k => vadd (block_sum P k a) (P k a) end.
+  Record block_projections (K : nat) (P : nat -> E -> E) : Prop := {
+    blk_lin : forall k, (k < K)%nat -> linear (P k);
+    blk_sa : forall k a b, (k < K)%nat -> inner (P k a) b = inner a (P k b);
+    blk_idem : forall k a, (k < K)%nat -> veq (P k (P k a)) (P k a);
+    blk_orth : forall k k' a b, (k < K)%nat -> (k' < K)%nat -> k <> k' -> inner (P k a) (P k' b) = 0;
+    blk_sum : forall a, veq (block_sum P K a) a
+  }.
+  Definition block_upper (Pk : E -> E) (Lk : R) (F : dfn) : Prop :=
+    forall x d, dval F (vadd x (Pk d))
+                <= dval F x + inner (dgrad F x) (Pk d) + Lk / 2 * nrm2 (Pk d).
+  Definition block_smooth_convex_member (K : nat) (P : nat -> E -> E) (Ls : nat -> R) (F : dfn) : Prop :=
+    block_projections K P /\ grad_convex F /\
+    forall k, (k < K)%nat -> block_upper (P k) (Ls k) F.
 End Classes.
